@@ -121,31 +121,50 @@ fn check_typed_positions(i: i64) -> CaseResult {
     }
     // the header-typed labels arriving *after* labels the crate does not interpret (a positive integer
     // above 7, a text, a negative integer): map order carries no meaning
-    for (ahead, descr) in [(Item::Int(33), "label 33"), (Item::Text("k".into()), "a text label"), (Item::Int(-1), "label -1"), (Item::Int(256), "label 256")] {
-        let hb = m(vec![(ahead.clone(), Item::Bytes(vec![0])), (Item::Int(1), n.clone())]);
+    // ... or after a counter signature whose own headers use the very same labels (each map has its
+    // own label space)
+    let cs_hdr = |extra: bool| {
+        let mut e = vec![(Item::Int(1), Item::Int(-7)), (Item::Int(2), Item::Array(vec![Item::Int(1)])), (Item::Int(3), Item::Int(0))];
+        if extra {
+            e.push((Item::Int(33), Item::Bytes(vec![0])));
+            e.push((Item::Text("k".into()), Item::Int(1)));
+        }
+        Item::Map(e)
+    };
+    let cs = Item::Array(vec![Item::Bytes(encode(&cs_hdr(false))), cs_hdr(true), Item::Bytes(vec![1])]);
+    let ahead_list: Vec<(Item, Option<Item>, &str, usize)> = vec![
+        (Item::Int(33), None, "label 33", 1),
+        (Item::Text("k".into()), None, "a text label", 1),
+        (Item::Int(-1), None, "label -1", 1),
+        (Item::Int(256), None, "label 256", 1),
+        (Item::Int(7), Some(cs.clone()), "a counter signature using the same labels in its own headers", 0),
+        (Item::Int(7), Some(Item::Array(vec![cs.clone(), cs.clone()])), "two counter signatures using the same labels in their own headers", 0),
+    ];
+    for (ahead, ahead_val, descr, nrest) in ahead_list {
+        let hb = m(vec![(ahead.clone(), ahead_val.clone().unwrap_or(Item::Bytes(vec![0]))), (Item::Int(1), n.clone())]);
         match Header::from_slice(&hb) {
             Ok(h) => {
                 ensure!(alg_ok, "header alg {} after {} accepted though unregistered and not private", i, descr);
                 let l = crate::model::alg_to_l(h.alg.as_ref().ok_or_else(|| format!("header alg {} arriving after {} was not recognised as the algorithm (rest = {:?})", i, descr, h.rest))?)?;
-                ensure!(l == L::Int(i) && h.rest.len() == 1, "header alg {} after {} decoded as {:?} with extras {:?}", i, descr, l, h.rest);
+                ensure!(l == L::Int(i) && h.rest.len() == nrest, "header alg {} after {} decoded as {:?} with extras {:?}", i, descr, l, h.rest);
             }
             Err(_) => ensure!(!alg_ok, "header alg {} after {} rejected though registered or private", i, descr),
         }
         let ok3 = reg::registered(reg::COAP_CONTENT_FORMAT, i);
-        let hb = m(vec![(ahead.clone(), Item::Null), (Item::Int(3), n.clone())]);
+        let hb = m(vec![(ahead.clone(), ahead_val.clone().unwrap_or(Item::Null)), (Item::Int(3), n.clone())]);
         match Header::from_slice(&hb) {
             Ok(h) => {
                 ensure!(ok3, "content format {} after {} accepted though unregistered", i, descr);
-                ensure!(h.content_type.is_some() && h.rest.len() == 1, "content format {} arriving after {} was not recognised (rest = {:?})", i, descr, h.rest);
+                ensure!(h.content_type.is_some() && h.rest.len() == nrest, "content format {} arriving after {} was not recognised (rest = {:?})", i, descr, h.rest);
             }
             Err(_) => ensure!(!ok3, "content format {} after {} rejected though registered", i, descr),
         }
         let ok2 = reg::registered(reg::HEADER_PARAMETER, i);
-        let hb = m(vec![(ahead.clone(), Item::Int(0)), (Item::Int(2), Item::Array(vec![n.clone()]))]);
+        let hb = m(vec![(ahead.clone(), ahead_val.clone().unwrap_or(Item::Int(0))), (Item::Int(2), Item::Array(vec![n.clone()]))]);
         match Header::from_slice(&hb) {
             Ok(h) => {
                 ensure!(ok2, "crit entry {} after {} accepted though unregistered", i, descr);
-                ensure!(h.crit.len() == 1 && h.rest.len() == 1, "crit entry {} arriving after {} was not recognised (rest = {:?})", i, descr, h.rest);
+                ensure!(h.crit.len() == 1 && h.rest.len() == nrest, "crit entry {} arriving after {} was not recognised (rest = {:?})", i, descr, h.rest);
             }
             Err(_) => ensure!(!ok2, "crit entry {} after {} rejected though registered", i, descr),
         }
